@@ -29,6 +29,11 @@ LEVEL_TEXT = (
     "output (one-symbol exceptions with reasons). Histories need not be "
     "enumerated: absence of the effect on every path implies history "
     "independence. Optimistic for unresolved (third-party) calls.")
+LEVEL_TEXT += (
+    " Added after the seeding phase: (R5) also covers the nested functions "
+    "handed out as solvers / callbacks (their own parameters are operands "
+    "of whoever calls them); 'x op= v' counts as an in-place store when x "
+    "is a plain copy of an array operand.")
 LEVEL_NOTE = (
     "Assumes third-party calls (numpy/scipy) have no effects other than "
     "those in the enumerated tables (out=, ufunc.at, put/place/copyto, "
